@@ -14,7 +14,7 @@ TRUSTED_BASE = [
 ]
 ASSUMPTIONS = [
     "read footprints of the numpy-based leaf to_mask functions are not derived deductively; staleness of leaves and composites under every enumerated mutator is decided by the bounded histories",
-    "update_values_from_data (140 lines of component bookkeeping) is covered by the bounded histories only",
+    "update_values_from_data is under contract on a finite universe of attribute names (3 old x 3 new); what remove_component / add_component / the coords setter do inside it is their own contracts (C17) or the bounded histories",
 ]
 
 
@@ -29,10 +29,12 @@ MANIFEST_ENTRY = {
     "text": "clear_cache, _clear_subset_state_caches (every class of the subclass tree), Data.update_components (validate all, replace, clear caches, then notify; a rejected update changes nothing) and "
             "CompositeSubsetState.move_to (children moved, then own cache invalidated) are proved from the function text. Mutators that do not invalidate are found by enumerating every property setter of every "
             "selection class and every ROI mutator and running evaluate-mutate-evaluate histories against fresh copies; data, move and link histories cover masks, statistics, histograms and derived values.",
-    "note": "Trusted: class-tree model of __subclasses__, pyvc + z3. The staleness decision for numpy-based leaves and for update_values_from_data is bounded. Known findings: attribute setters and direct ROI edits "
+    "note": "Trusted: class-tree model of __subclasses__, pyvc + z3. The staleness decision for numpy-based leaves is bounded. Known findings: direct edits of a region object held by a selection nested in a combination "
             "never invalidate memoised masks (one entry per mutator in known_findings.json).",
 }
 
 MANIFEST_ENTRY['text'] += " Also proved: update_components skips nothing when the caller hands in the very buffer a component already holds (edited in place), and LinkManager.update_externally_derivable_components leaves every dataset with attributes derived from the links registered on return, also when a listener changes the links from inside a notification (ghost link-set version; the re-entered refresh is used through the function's own postcondition)."
 TRUSTED_BASE.append("refresh contract: a listener is modelled as 'may change the registered links after any notification'; the refresh it thereby re-enters is used through this contract's own postcondition (assumed for the inner call, proved for the outer one); discover_links / DerivedComponent / equivalent_pixel_cids are stubs returning tokens")
 TRUSTED_BASE.append("update_components contract: np.array_equal / shares_memory style comparisons answer 'equal' for the very buffer a component holds whatever happened to its contents")
+MANIFEST_ENTRY['text'] += (" SubsetState.__setattr__ is proved to invalidate the memoised masks whenever an existing attribute is assigned, whatever a comparison of old and new value says, and "
+                           "Data.update_values_from_data to invalidate after the last change it makes and before its one notification.")
